@@ -32,7 +32,7 @@ CLAIMED = {
          "layer never reads are length-preserving surrogates except in a literal sample; independence of other connections is checked by the oracle only. The correspondence compares what the property fixes (messages delivered in order, which pending requests get exactly one delivery error and which were refused by the router, messages written, closed and removed from the peer map, peer name / pending ids / buffer length while open); the KIND and text of a protocol error, log output and the sizes of locally generated replies are abstracted; MAX_MESSAGE_SIZE and the recv chunk size are read from the code under test.",
     technique="Coq induction over frame lists and operation scripts; H1 differential run with fault injection"),
  "C11": dict(category="proof", design_ref="7 (C11)",
-    text="9 Coq theorems (all closed) on a concurrent machine running the transcribed stop_task / wait_for_condition / get_next_signal (blocking, timed and the non-blocking form timeout=0) / sleep / loop-task programs, with and without a second waiter on the same receiver (7 variants x signal environment), at "
+    text="9 Coq theorems (all closed) on a concurrent machine running the transcribed stop_task / wait_for_condition / get_next_signal (blocking, timed and the non-blocking form timeout=0) / sleep / loop-task programs, with and without a second waiter on the same receiver (7 variants, each also in the form where wait_for_condition tests the stop flag before registering the condition - a choice the property leaves open; 12 transcriptions x signal environment, a real schedule must be a path of one of the two forms), at "
          "synchronisation granularity: once stop() has returned the task is never parked un-notified; a wait begun after stop never parks and raises; loop_finalize always runs; "
          "exactly one outcome; progress needs neither time nor signals and is bounded (zero virtual time); no deadlock; a queued signal wakes a waiting reader. Proved for executions of any length by reflection on the "
          "finite reachable set (computed and checked closed by vm_compute). Tie: the real _TaskThread/QMI_Task/QMI_LoopTask/QMI_SignalReceiver run under a deterministic scheduler; "
@@ -41,14 +41,9 @@ CLAIMED = {
          "(queue empty/non-empty, one wait per run, time-outs fire only while parked); atomicity of code between two synchronisation operations of one thread.",
     technique="finite-state reflection (closed reachable set) in Coq + schedule enumeration with trace acceptance"),
  "C13": dict(category="proof", design_ref="7 (C13)",
-    text="19 Coq theorems (all closed; every oracle, state, terminator, count, timeout, call sequence) on an executable model of the TCP/UDP/serial transports (buffered read loops with "
-         "deadline arithmetic, discard, open/close, write) with an adversarial device oracle: byte conservation (nothing lost/duplicated/reordered, discarded bytes never resurface), "
-         "read = exactly n, read_until = shortest terminated prefix, time-out consumes nothing, read_until_timeout <= n, closed transport never reads or writes, written bytes reach the "
-         "device unchanged and in order, wrong-state open/close refused, model fuel always sufficient for all three kinds. Tie: per-call differential execution (results and the exact stand-in call list incl. settimeout arguments) of the "
-         "real QMI_TcpTransport/QMI_UdpTransport/QMI_SerialTransport with scripted socket/serial and a virtual clock; independent conservation/contract oracle.",
-    note="Trusted: Coq kernel+vm_compute; hand model; harness stand-ins (define what a device schedule is); TCP = FIFO stream, UDP datagrams <= 4096 bytes, pyserial read(k) <= k bytes. "
-         "The serial fuel theorem assumes the clock advances dt >= 0. The UDP read_until_timeout defect found here was repaired (fix: commit).",
-    technique="Coq induction over fuel/oracle with a stream-conservation invariant; differential testing with scripted device"),
+    text="23 Coq theorems (all closed) over an executable model of the TCP/UDP/serial transports (buffered read loops with deadline arithmetic, discard, open/close, write) with an adversarial device oracle, proved for EVERY value of the tuning constants (packet sizes, serial poll interval: read from the live classes on every run) and EVERY policy for the choices the property leaves open (64 policies: return-or-timeout when the data is complete at/after the deadline, < vs <= at the deadline per operation, discard polling once or until empty, read_until open check before or after the buffer search): stream conservation (no loss / duplication / reordering, discarded bytes never resurface), exact-n read, shortest-terminator read_until, failed calls consume nothing, read_until_timeout <= n, a closed transport never reads or writes, written bytes reach the device unchanged and in order, fuel always sufficient; every outcome the correspondence accepts (allowed_outcomes) is proved to satisfy these clauses (C13_allowed_step_sound, C13_allowed_outcomes_sound), and the pinned behaviour is one element (C13_allowed_contains_pinned). Tie: per-call differential execution against qmi/core/transport.py (results and stand-in calls incl. settimeout values) as MEMBERSHIP in allowed_outcomes with live constants, plus an independent property oracle.",
+    note="Trusted: Coq 8.16.1 kernel + vm_compute; hand-written Model.v (9k cases quick / 79k thorough); harness stand-ins for socket, serial.Serial, time.monotonic. Assumptions: TCP is a FIFO stream; UDP datagrams <= min(MIN,MAX)_PACKET_SIZE; pyserial read(k) returns <= k bytes; byte counts >= 0; clock advances >= 0 and tick > 0 (serial fuel theorem only). Of a write only the bytes sent, in order, are observed. Still pinned (a change shows as model-differs without a failing input): read()/read_until_timeout() on a closed transport always refused, the size formula max(n - nbuf, MIN) in read(), serial non-blocking path via in_waiting, serial read_until one byte at a time. The UDP read_until_timeout defect found by this check was repaired by a fix: commit.",
+    technique="induction over fuel/oracle with a stream-conservation invariant; policy-parameterised model with allowed_outcomes membership check; decreasing-measure fuel proofs; differential testing with scripted device + virtual clock, live constants"),
  "C16": dict(category="proof", design_ref="7 (C16)",
     text="20 Coq theorems (all closed; all texts, annotations, types and data): the comment scanner is exactly the regex language and cuts each line at its first '#' outside a string; duplicate "
          "keys rejected; dump output is untouched by stripping; typed parse is total with located errors, strict (accept iff no offending item), and round-trips both ways up to the "
